@@ -580,6 +580,12 @@ PROPERTIES["C18"] = dict(
     runs=[dict(pkg="accumulation", files=PIPE_FILES, entry="Harness_P18", quick=dict(params=dict(STMTS=2, COMPOUND=5)), thorough=dict(params=dict(STMTS=3, COMPOUND=4, SIMPLE=5)), args=dict(sample_every=61, max_samples=16))],
 )
 
+# Seed C18-3 (string-prefix fast path in RelToCwd: /w/ab/x.go seen from /w/a becomes "b/x.go") was missed by Harness_P18, whose
+# layouts have no sibling directory sharing a name prefix with the working directory; the RelToCwd kernel is therefore a C18 run too.
+PROPERTIES["C18"]["runs"] += [dict(pkg="util/tokenhelper", files=TOKEN_FILES, entry="Harness_C14_Rel", args=dict(sample_every=3))]
+PROPERTIES["C18"]["bounds"]["quick"] += "; RelToCwd kernel (Harness_C14_Rel): 2 working directories x 7 directory names (incl. names that merely start with the working directory's name) x 6 placements"
+PROPERTIES["C18"]["bounds"]["thorough"] += "; RelToCwd kernel as in quick"
+
 PROPERTIES["C13"]["runs"] += [dict(pkg="accumulation", files=PIPE_FILES, entry="Harness_P13M", args=dict(sample_every=1, max_samples=4))]
 PROPERTIES["C13"]["bounds"]["quick"] += "; P13M: 4 programs (two plain functions / two same-named methods / two init functions / one function twice) whose findings have no positioned nil source"
 
